@@ -9,7 +9,7 @@
        congruence matrix; a ZERO weight gives a zero column, which congruence_coefficient rejects;
    (c) hence the list form and the single form differ: witness (executed instance). *)
 From Coq Require Import List Arith Lia Bool Reals Lra QArith.
-From TLV Require Import Base.Shape Base.PyList Base.Tensor Base.Ops Model.Metrics Model.MetricsPermute Proofs.MetricsProofs.
+From TLV Require Import Base.Shape Base.PyList Base.Tensor Base.Ops Model.Metrics Model.MetricsSrc Model.MetricsPermute Proofs.MetricsProofs.
 From TLV Require Model.Transforms Proofs.TransformsProofs Proofs.TransformsProofsR.
 Import ListNotations.
 Local Close Scope Q_scope.
@@ -68,6 +68,15 @@ Proof.
     unfold cpf_one in Ht'. destruct (congruence Op true _ _ _ _ assign) as [[v p]|]; [discriminate | reflexivity].
 Qed.
 
+(* source tie: the meaning of the canonical decision record of cp_permute_factors IS the full model, for all inputs *)
+Lemma cpf_one_src_canonical ref nrm t assign : cpf_one_src Op canonical_pp ref nrm t assign = cpf_one Op ref nrm t assign.
+Proof. reflexivity. Qed.
+Lemma cpf_list_src_canonical ref nrm assign : forall ts, cpf_list_src Op canonical_pp ref nrm ts assign = cpf_list Op ref nrm ts assign.
+Proof. induction ts as [|t ts IH]; [reflexivity|]. cbn [cpf_list_src cpf_list]. now rewrite IH, cpf_one_src_canonical. Qed.
+Theorem cp_permute_full_src_canonical ref arg assign :
+  cp_permute_factors_full_src Op canonical_pp ref arg assign = cp_permute_factors_full Op ref arg assign.
+Proof. destruct arg; cbn [cp_permute_factors_full_src cp_permute_factors_full pp_norm_list canonical_pp]; apply cpf_list_src_canonical. Qed.
+
 (* the compared factors of the tensor passed ALONE are its own factors: nothing is normalised *)
 Lemma compared_single (t : ptensor F) : compared Op false t = pfs t.
 Proof. reflexivity. Qed.
@@ -120,3 +129,40 @@ Theorem cp_permute_list_vs_single_refuted :
   cp_permute_factors_full Qops wit_ref (PSingle (wit_t false)) (fun _ => [1; 0]%nat) = Ok [([2; 0], [[[3; 0]; [4; 1]]], [1; 0]%nat)] /\
   cp_permute_factors_full Qops wit_ref (PList [wit_t true]) (fun _ => [1; 0]%nat) = Err.
 Proof. split; vm_compute; reflexivity. Qed.
+
+(* ---------- (d) per mode: the compared (normalised) pair of factors is a non-zero column rescaling of the original pair as soon
+   as no absorbed weight is zero -- exactly the premise `rescaled` + `scaling_ok true` of the invariance theorems of
+   Proofs/MetricsProofs10.v (cosine_rescaled, cong_one_rescaled, cong_all_rescaled, optimal_matching_rescaled) ---------- *)
+From TLV Require Import Proofs.MetricsProofs10.
+Local Close Scope Q_scope.
+Local Open Scope R_scope.
+
+Lemma nrows_compared (t : ptensor R) k : (k < length (pfs t))%nat -> (k < length (pnorm t))%nat ->
+  nrows (nth k (compared Rops true t) []) = nrows (nth k (pfs t) []).
+Proof.
+  intros Hf Ht. unfold compared, cp_normalize.
+  rewrite norm_loop_factors; [| unfold norm_inputs; destruct (pfs t); cbn [length] in *; [lia | exact Hf] | exact Ht].
+  unfold nrows, div_cols. rewrite map_length. unfold norm_inputs. destruct (pfs t) as [|A0 rest]; [cbn in Hf; lia|].
+  destruct k; [|reflexivity]. cbn [nth]. unfold scale_cols. now rewrite map_length.
+Qed.
+
+Theorem compared_mode_rescaled (ref t : ptensor R) (k r : nat) (na nb na' nb' : list R) :
+  (k < length (pfs ref))%nat -> (k < length (pnorm ref))%nat -> (k < length (pfs t))%nat -> (k < length (pnorm t))%nat ->
+  length (nth k (pnorm ref) []) = r -> length (nth k (pnorm t) []) = r ->
+  (k = 0%nat -> forall i, (i < r)%nat -> vget Rops (pw ref) i <> 0 /\ vget Rops (pw t) i <> 0) ->
+  let m := mkMode (nth k (pfs ref) []) (nth k (pfs t) []) na nb in
+  let m' := mkMode (nth k (compared Rops true ref) []) (nth k (compared Rops true t) []) na' nb' in
+  exists a b, rescaled r m m' a b /\ scaling_ok true r a b.
+Proof.
+  intros Hfr Htr Hft Htt Lr Lt Hw m m'.
+  exists (fun i => (if Nat.eqb k 0 then vget Rops (pw ref) i else 1) / nz1 Rops (vget Rops (nth k (pnorm ref) []) i)),
+         (fun i => (if Nat.eqb k 0 then vget Rops (pw t) i else 1) / nz1 Rops (vget Rops (nth k (pnorm t) []) i)).
+  split.
+  - unfold rescaled, m, m'. cbn [mA mB]. split; [now apply nrows_compared|]. split.
+    + intros q i _ Hi. destruct (compared_factor_entry ref k q i Hfr Htr ltac:(lia)) as (E & _). exact E.
+    + intros q j _ Hj. destruct (compared_factor_entry t k q j Hft Htt ltac:(lia)) as (E & _). exact E.
+  - intros i Hi.
+    destruct (compared_factor_entry ref k 0 i Hfr Htr ltac:(lia)) as (_ & _ & Ca).
+    destruct (compared_factor_entry t k 0 i Hft Htt ltac:(lia)) as (_ & _ & Cb).
+    split; [apply Ca; intros E; now apply (Hw E i Hi)|]. split; [apply Cb; intros E; now apply (Hw E i Hi) | discriminate].
+Qed.
